@@ -1,6 +1,6 @@
 """C10 — The regex engine is total."""
 
-from ..rules import limits, regexrules
+from ..rules import frontprogress, limits, regexrules
 
 
 def run(ctx, rep):
@@ -8,4 +8,5 @@ def run(ctx, rep):
     limits.rule_matcher_loop_poll(ctx, rep, "C10-R2a", budgets=True, rid_budget="C10-R2")
     regexrules.rule_bounded_compilation(ctx, rep, "C10-R3")
     regexrules.rule_zero_width_guard(ctx, rep, "C10-R4")
+    frontprogress.rule_frontend_progress(ctx, rep, "C10-R5", modules=("regex.parser",), floor=12)
     rep.undecided += ["wall-clock time per match"]
